@@ -60,6 +60,75 @@ func newMapping(kind string, gamma, offset float64) (mapping.IndexMapping, error
 	return nil, fmt.Errorf("unknown kind")
 }
 
+// viaConvenienceConstructor builds the same configuration with LogUnboundedDenseDDSketch,
+// LogCollapsing{Lowest,Highest}DenseDDSketch, NewDefaultDDSketch or
+// NewDefaultDDSketchWithExactSummaryStatistics when the mapping is the logarithmic mapping that the
+// relative accuracy alone determines (same serialized form); nil, nil when there is no such
+// constructor. A constructor that fails or returns something else than what it documents is a
+// constructor-decision failure.
+func (r *Runner) viaConvenienceConstructor(m mapping.IndexMapping, kind string, n int, exact bool) (*ddsketch.DDSketch, *ddsketch.DDSketchWithExactSummaryStatistics) {
+	if _, isLog := m.(*mapping.LogarithmicMapping); !isLog {
+		return nil, nil
+	}
+	alpha := m.RelativeAccuracy()
+	m2, err := mapping.NewLogarithmicMapping(alpha)
+	if err != nil {
+		return nil, nil
+	}
+	var b1, b2 []byte
+	m.Encode(&b1)
+	m2.Encode(&b2)
+	if string(b1) != string(b2) {
+		return nil, nil
+	}
+	var sk *ddsketch.DDSketch
+	var xs *ddsketch.DDSketchWithExactSummaryStatistics
+	name := ""
+	switch {
+	case exact && kind == "pag":
+		name = "NewDefaultDDSketchWithExactSummaryStatistics"
+		xs, err = ddsketch.NewDefaultDDSketchWithExactSummaryStatistics(alpha)
+		if xs != nil {
+			sk = xs.DDSketch
+		}
+	case exact:
+		return nil, nil
+	case kind == "pag":
+		name = "NewDefaultDDSketch"
+		sk, err = ddsketch.NewDefaultDDSketch(alpha)
+	case kind == "dense":
+		name = "LogUnboundedDenseDDSketch"
+		sk, err = ddsketch.LogUnboundedDenseDDSketch(alpha)
+	case kind == "low":
+		name = "LogCollapsingLowestDenseDDSketch"
+		sk, err = ddsketch.LogCollapsingLowestDenseDDSketch(alpha, n)
+	case kind == "high":
+		name = "LogCollapsingHighestDenseDDSketch"
+		sk, err = ddsketch.LogCollapsingHighestDenseDDSketch(alpha, n)
+	default:
+		return nil, nil
+	}
+	r.stats["ctor:"+name]++
+	if err != nil || sk == nil {
+		r.oracleFail("constructor-decision", fmt.Sprintf("%s(%v) with a valid relative accuracy: sketch=%v err=%v", name, alpha, sk != nil, err))
+		return nil, nil
+	}
+	wantType := fmt.Sprintf("%T", providerOf(kind, n)())
+	if got := fmt.Sprintf("%T", sk.GetPositiveValueStore()); got != wantType {
+		r.oracleFail("constructor-decision", fmt.Sprintf("%s: positive store is %s, documented %s", name, got, wantType))
+	}
+	if got := fmt.Sprintf("%T", sk.GetNegativeValueStore()); got != wantType {
+		r.oracleFail("constructor-decision", fmt.Sprintf("%s: negative store is %s, documented %s", name, got, wantType))
+	}
+	if !sk.IndexMapping.Equals(m) || !sk.IsEmpty() {
+		r.oracleFail("constructor-decision", fmt.Sprintf("%s(%v): mapping %v, empty %v", name, alpha, sk.IndexMapping, sk.IsEmpty()))
+	}
+	if exact {
+		return nil, xs
+	}
+	return sk, nil
+}
+
 func providerOf(kind string, n int) store.Provider {
 	switch kind {
 	case "dense":
@@ -312,6 +381,14 @@ func (r *Runner) execSketch(cmd string, a []string) string {
 			e.exact = ddsketch.NewDDSketchWithExactSummaryStatistics(m, providerOf(kind, n))
 		} else {
 			e.plain = ddsketch.NewDDSketchFromStoreProvider(m, providerOf(kind, n))
+		}
+		// every other time, go through the library's convenience constructor for this configuration,
+		// when there is one that yields exactly this mapping
+		r.ctorMode++
+		if m != nil && r.ctorMode%2 == 0 {
+			if p, x := r.viaConvenienceConstructor(m, kind, n, isX); p != nil || x != nil {
+				e.plain, e.exact = p, x
+			}
 		}
 		r.sks[id] = e
 		return "ok"
